@@ -63,14 +63,16 @@ inductive Stmt where
   | cont
   | loop (body : Stmt)           -- zero or more iterations; the loop condition is over untracked data
   | abort                        -- noreturn call
+  | jmp                          -- `goto L` for the one label L that closes the enclosing `block`
+  | block (b : Stmt)             -- `{ b } L:` : a `jmp` inside ends the block normally
   deriving Repr
 
 inductive Out where
-  | norm | brk | cont | ret (v : Nat) | abort
+  | norm | brk | cont | ret (v : Nat) | abort | jmp
   deriving DecidableEq, Repr
 
 def Out.code : Out → Nat
-  | .norm => 0 | .brk => 1 | .cont => 2 | .abort => 3 | .ret v => 4 + v
+  | .norm => 0 | .brk => 1 | .cont => 2 | .abort => 3 | .jmp => 4 | .ret v => 5 + v
 
 def Out.beq (a b : Out) : Bool := Nat.beq a.code b.code
 
@@ -123,6 +125,9 @@ inductive Exec (H : Havoc) : Stmt → St → List Ev → St → Out → Prop whe
   | brk (s) : Exec H .brk s [] s .brk
   | cont (s) : Exec H .cont s [] s .cont
   | abort (s) : Exec H .abort s [] s .abort
+  | jmp (s) : Exec H .jmp s [] s .jmp
+  | blockJ {b s t s1} : Exec H b s t s1 .jmp → Exec H (.block b) s t s1 .norm
+  | blockN {b s t s1 o} : Exec H b s t s1 o → o ≠ .jmp → Exec H (.block b) s t s1 o
   | loopExit (b s) : Exec H (.loop b) s [] s .norm
   | loopIter {b s t1 s1 o1 t2 s2 o2} : Exec H b s t1 s1 o1 → (o1 = .norm ∨ o1 = .cont) →
       Exec H (.loop b) s1 t2 s2 o2 → Exec H (.loop b) s (t1 ++ t2) s2 o2
@@ -173,6 +178,13 @@ theorem memS_iff {a : St} {l} : memS a l = true ↔ a ∈ l := elemBy_iff St.beq
 structure Res where
   outs : List (St × Out) := []
   ok : Bool := true
+
+def isJmp (o : Out) : Bool := Nat.beq o.code 4
+
+theorem isJmp_iff {o : Out} : isJmp o = true ↔ o = .jmp := by
+  cases o <;> simp [isJmp, Out.code] <;> omega
+
+def unJmp (p : St × Out) : St × Out := if isJmp p.2 then (p.1, .norm) else p
 
 def isNorm (o : Out) : Bool := Nat.beq o.code 0
 def isNormOrCont (o : Out) : Bool := Nat.beq o.code 0 || Nat.beq o.code 2
@@ -254,6 +266,10 @@ def reach (H : Havoc) (P : Policy) : Stmt → List St → Res
   | .brk, S => { outs := S.map (·, .brk) }
   | .cont, S => { outs := S.map (·, .cont) }
   | .abort, S => { outs := S.map (·, .abort) }
+  | .jmp, S => { outs := S.map (·, .jmp) }
+  | .block b, S =>
+    let rb := reach H P b S
+    { outs := dedupP (rb.outs.map unJmp), ok := rb.ok }
   | .loop b, S =>
     let I := closure (reach H P b) rounds S
     let rb := reach H P b I
@@ -305,6 +321,7 @@ theorem loop_sound {H : Havoc} {P : Policy} {b : Stmt} {I : List St}
     | brk => exact absurd rfl ho.2.2
     | ret v => simp [loopOut]
     | abort => simp [loopOut]
+    | jmp => simp [loopOut]
   | _ => cases hp
 
 /-- **Soundness of the analysis.**  If `reach` reports ok for the set `S`, then every execution of `p` from a
@@ -398,6 +415,30 @@ theorem reach_sound {H : Havoc} {P : Policy} (p : Stmt) :
     intro S s tr s1 o hx hs _
     cases hx
     exact ⟨List.mem_map.mpr ⟨s, hs, rfl⟩, by intro e he; cases he⟩
+  | jmp =>
+    intro S s tr s1 o hx hs _
+    cases hx
+    exact ⟨List.mem_map.mpr ⟨s, hs, rfl⟩, by intro e he; cases he⟩
+  | block b ihb =>
+    intro S s tr s1 o hx hs hok
+    simp only [reach] at hok
+    cases hx with
+    | blockJ h1 =>
+      have hb := ihb h1 hs hok
+      refine ⟨?_, hb.2⟩
+      simp only [reach]
+      rw [mem_dedupP]
+      exact List.mem_map.mpr ⟨(s1, .jmp), hb.1, by simp [unJmp, isJmp, Out.code]⟩
+    | blockN h1 ho =>
+      have hb := ihb h1 hs hok
+      refine ⟨?_, hb.2⟩
+      simp only [reach]
+      rw [mem_dedupP]
+      refine List.mem_map.mpr ⟨(s1, o), hb.1, ?_⟩
+      unfold unJmp
+      cases hj : isJmp o
+      · rfl
+      · exact absurd (isJmp_iff.mp hj) ho
   | loop b ihb =>
     intro S s tr s1 o hx hs hok
     simp only [reach, Bool.and_eq_true] at hok
